@@ -3,6 +3,7 @@ package main
 import (
 	"fmt"
 	"go/types"
+	"sort"
 
 	"golang.org/x/tools/go/ssa"
 )
@@ -254,10 +255,56 @@ func worklistLoops(fn *ssa.Function) []worklist {
 			}
 		}
 	}
+	// slice-based FIFO: q := [...]; for len(q) > 0 { x := q[0]; q = q[1:]; …; q = append(q, succ...) }
+	for _, h := range fn.Blocks {
+		if !isLoopHeader(h) {
+			continue
+		}
+		body := loopBody(h)
+		for _, in := range h.Instrs {
+			ph, ok := in.(*ssa.Phi)
+			if !ok {
+				break
+			}
+			if _, isSlice := ph.Type().Underlying().(*types.Slice); !isSlice {
+				continue
+			}
+			D := forward([]ssa.Value{ph}, fwdOpts{noBinOp: true})
+			popped := false
+			var pushes []ssa.CallInstruction
+			for b := range body {
+				for _, i2 := range b.Instrs {
+					switch x := i2.(type) {
+					case *ssa.Slice:
+						if (x.X == ssa.Value(ph) || D[x.X]) && x.Low != nil && x.High == nil {
+							if k, ok := constInt(x.Low); ok && k == 1 {
+								popped = true
+							}
+						}
+					case *ssa.Call:
+						if bi, ok := x.Call.Value.(*ssa.Builtin); ok && bi.Name() == "append" && len(x.Call.Args) > 0 {
+							if x.Call.Args[0] == ssa.Value(ph) || D[x.Call.Args[0]] {
+								pushes = append(pushes, x)
+							}
+						}
+					}
+				}
+			}
+			if popped && len(pushes) > 0 {
+				w := byHeader[h]
+				if w == nil {
+					w = &worklist{header: h}
+					byHeader[h] = w
+				}
+				w.pushes = append(w.pushes, pushes...)
+			}
+		}
+	}
 	var out []worklist
 	for _, w := range byHeader {
 		out = append(out, *w)
 	}
+	sort.Slice(out, func(i, j int) bool { return out[i].header.Index < out[j].header.Index })
 	return out
 }
 
